@@ -91,7 +91,8 @@ def subtrees(e):
 
 BOUNDS = sorted({0, 1, 2, 3, 5, 7, 8, 10, 31, 32, 33, 63, 64, 100, 127, 128, 129, 200, 255, 256, 257, 300, 1000,
                  32767, 32768, 65535, 65536, 2147483647, 2147483648, 2147483649, 4294967295, 4294967296,
-                 4294967297, 9223372036854775807, 9223372036854775808, 18446744073709551615})
+                 4294967297, 9007199254740993, 1000000000000000007, 9223372036854775807, 9223372036854775808,
+                 18446744073709551615})
 
 
 def gen_lit(rng, small=False):
@@ -107,6 +108,41 @@ def gen_lit(rng, small=False):
     base = rng.choice("ddxxo") if not small else "d"
     suf = rng.choice(SUFFIXES) if rng.random() < 0.45 else "n"
     return ("L", base, suf, v)
+
+
+WIDE = sorted({(1 << 53) - 1, 1 << 53, (1 << 53) + 1, (1 << 53) + 3, 9007199254740993, (1 << 62) - 1, (1 << 62) + 1,
+               (1 << 63) - 1, (1 << 63) - 2, (1 << 63) - 25, 1 << 63, (1 << 63) + 1, (1 << 64) - 1, (1 << 64) - 2,
+               (1 << 64) - 59, 10 ** 18, 10 ** 18 + 7, 999999999999999989, 1234567890123456789, 12345678901234567890,
+               4611686018427387847, 6148914691236517205, 0x7fffffff00000001, 0xfffffffffffffffb})
+WIDE_TYPES = ["long", "llong", "ulong", "ullong"]
+SUF_OF = {"long": "l", "llong": "ll", "ulong": "ul", "ullong": "ull"}
+
+
+def gen_wide_binop(rng, op=None):
+    """one binary operator on operands of the 64-bit range (beyond 2^53: not representable as a double), for every
+    operator incl. / % << >> and the comparisons, at the types long / long long / unsigned long / unsigned long long"""
+    op = op or rng.choice(list(BINOPS))
+    ta, tb = rng.choice(WIDE_TYPES), rng.choice(WIDE_TYPES)
+
+    def operand(t):
+        r = rng.random()
+        v = rng.choice(WIDE) if r < 0.7 else rng.getrandbits(rng.randint(60, 64)) | (1 << 59)
+        if t in ("long", "llong") and v > (1 << 63) - 1:
+            v = v % (1 << 63) | (1 << 55)
+        e = ("L", rng.choice("dx"), SUF_OF[t], v)
+        if t in ("long", "llong") and rng.random() < 0.3:
+            e = ("U", "neg", e)
+        return e
+    a = operand(ta)
+    if op in ("shl", "shr"):
+        b = ("L", "d", rng.choice(["n", "u", "l"]), rng.choice([0, 1, 2, 3, 7, 8, 11, 31, 32, 33, 52, 53, 54, 62, 63]))
+    elif op in ("div", "mod") and rng.random() < 0.6:
+        b = ("L", "d", rng.choice(["n", SUF_OF[tb]]), rng.choice([1, 2, 3, 4, 7, 10, 1000, 4096, 65537, 1000003, (1 << 31) - 1, (1 << 32) + 1]))
+        if rng.random() < 0.25:
+            b = ("U", "neg", b)
+    else:
+        b = operand(tb)
+    return ("B", op, a, b)
 
 
 def gen_expr(rng, depth, ops=None):
